@@ -228,8 +228,8 @@ def check(run: Run):
         events += four_index_events(n)
     for n in range(1, run.pick(3, 5) + 1):
         events += four_index_overwrite_events(n)
-    events += strbool_events(rng, run.pick(300, 3000))
-    events += volume_events(2, rng, run.pick(3000, 40000))
+    events += strbool_events(rng, run.pick(300, 10000))
+    events += volume_events(2, rng, run.pick(3000, 200000))
     # spec -> code: behaviours of the congruence machine
     pool = []
     for cfg, num in (("MC_Kernels_quick.cfg", run.pick(60, 400)), ("MC_Kernels_thorough.cfg", run.pick(40, 400))):
@@ -244,14 +244,14 @@ def check(run: Run):
     pool = list(uniq.values())
     run.notes["machine_states_replayed"] = len(pool)
     items = [(D, S, spec, 2) for D, S, spec in pool]
-    for _ in range(run.pick(150, 1500)):
+    for _ in range(run.pick(150, 6000)):
         k = rng.randint(2, 5)
         parts = [rng.choice(pool) for _ in range(k)]
         if sum(len(p[0]) for p in parts) > 12:
             continue
         items.append((block_diag([p[0] for p in parts]), block_diag([p[1] for p in parts]), [x for p in parts for x in p[2]], 2))
     # the same states in badly scaled bases: valid overlaps with eigenvalues down to about 1e-9
-    for D, S, spec, den in items[:: max(1, len(items) // run.pick(200, 2000))]:
+    for D, S, spec, den in items[:: max(1, len(items) // run.pick(200, 5000))]:
         ks = [rng.choice([0, 0, 2, 3, 4]) for _ in D]
         if any(ks):
             items.append((D, S, spec, den, ks))
@@ -260,7 +260,7 @@ def check(run: Run):
     for it in items[:: max(1, len(items) // run.pick(300, 2000))] + [it for it in items if len(it) == 5][: run.pick(150, 1500)]:
         for eps, occ_max in ((1e-4, 1.0), (1e-4, 2.0), (0.3, 1.0), (1e-4, 1.5)):
             events.append(checkdm_event(it[0], it[1], it[2], it[3], eps, occ_max, it[4] if len(it) == 5 else None))
-    events += checkdm_edge_events(rng, run.pick(400, 4000))
+    events += checkdm_edge_events(rng, run.pick(400, 20000))
     reached = validate_traces(run, "Trace_Kernels", [[e] for e in events], chunk=3000)
     kinds = {}
     for e, r in zip(events, reached):
